@@ -663,6 +663,18 @@ func (ndb *nodeDB) DeleteVersionsFrom(fromVersion int64) error {
 	// Make sure the mismatch is detected even if the same version number is committed again
 	// while the fast index is disabled.
 	if ndb.hasUpgradedToFastStorage() {
+		first, err := ndb.getFirstVersion()
+		if err != nil {
+			return err
+		}
+		if first == 0 || first >= dumpFromVersion {
+			// Nothing remains: the label 0 written below is then also the label of the (empty)
+			// latest version and would be trusted, so the entries themselves have to go.
+			prefix := fastKeyFormat.Key()
+			if err = ndb.deleteRange(prefix, ibytes.CpIncr(prefix), ndb.batch.Delete); err != nil {
+				return err
+			}
+		}
 		if err := ndb.SetFastStorageVersionToBatch(0); err != nil {
 			return err
 		}
